@@ -22,6 +22,8 @@ VERIF = os.path.dirname(os.path.dirname(os.path.abspath(__file__)))
 PY = os.path.join(VERIF, ".venv", "bin", "python")
 
 EXIT_OK, EXIT_VIOLATION, EXIT_HARNESS = 0, 1, 3
+MAX_REPLAYS_PER_OBLIGATION = 2
+MAX_REPLAYS = 60
 
 
 class Outcome:
@@ -333,7 +335,10 @@ def run_property(prop, harnesses, tier, seed, jobs=16, level="model_checking", e
             lines.append("KNOWN-FINDING: property=%s %s [%s]" % (prop, e["what"], fid))
         else:
             lines.append("NOTE known finding %s no longer reproduces (%s)" % (fid, st))
-    # violations: replay before reporting
+    # violations: replay before reporting (at most MAX_REPLAYS_PER_OBLIGATION distinct inputs per
+    # obligation, the rest are counted; replays run concurrently, each in its own fresh interpreter)
+    todo = []
+    not_replayed = 0
     for name, a in sorted(agg.items()):
         H = byname[name]
         seen = set()
@@ -342,17 +347,25 @@ def run_property(prop, harnesses, tier, seed, jobs=16, level="model_checking", e
             if key in seen:
                 continue
             seen.add(key)
-            p = replay_file(prop, H, v["inputs"], v["tag"])
-            st, outp = run_replay(p)
-            if st == "violated":
-                confirmed.append((name, p, v, outp))
-            else:
-                harness_errors.append((name, "counterexample did not reproduce (%s): %s\n%s" % (st, p, outp)))
+            if len(seen) > MAX_REPLAYS_PER_OBLIGATION or len(todo) >= MAX_REPLAYS:
+                not_replayed += 1
+                continue
+            todo.append((name, replay_file(prop, H, v["inputs"], v["tag"]), v))
         for mm in a["mismatches"]:
             harness_errors.append((name, "symbolic run disagrees with the implementation on a path witness: %s"
                                    % json.dumps(mm)[:1500]))
-        if H.must_reach and not any(a["tags"].get(t) for t in H.must_reach) and a["exhausted"]:
+        if H.must_reach and not any(a["tags"].get(t) for t in H.must_reach) and a["exhausted"] \
+                and not a["violations"]:
             harness_errors.append((name, "vacuous: none of the tags %s was reached (%s)" % (H.must_reach, dict(a["tags"]))))
+    with cf.ThreadPoolExecutor(max_workers=jobs) as tp:
+        outs = list(tp.map(lambda t: run_replay(t[1]), todo))
+    for (name, p, v), (st, outp) in zip(todo, outs):
+        if st == "violated":
+            confirmed.append((name, p, v, outp))
+        else:
+            harness_errors.append((name, "counterexample did not reproduce (%s): %s\n%s" % (st, p, outp)))
+    if not_replayed:
+        lines.append("NOTE %d further counterexamples were found but not replayed (limit per obligation)" % not_replayed)
     for name, p, v, outp in confirmed:
         lines.append("VIOLATION property=%s replay=%s" % (prop, p))
         lines.append("  obligation=%s outcome=%s %s" % (name, v["tag"], outp[:400].replace("\n", " | ")))
